@@ -90,44 +90,48 @@ def item_processing(alphabet, markers):
     return F.FST.from_function(alphabet, "S", step, lambda q: "" if q in ("S", "U", "Q0", "QT") else None)
 
 
+# the glue the transducers of this module TRANSCRIBE: the transcription is valid for exactly these statement lists (ast.unparse of the
+# real body, docstring stripped, comments and layout ignored).  Any other body - also one that only ADDS a statement - is outside the
+# fragment: the obligations that use the glue are then undecided, never proved on a stale transcription.
+GLUE = {
+    "Parameters.from_ical": (
+        "result = cls()\nfor param in q_split(st, ';'):\n    try:\n        key, val = q_split(param, '=', maxsplit=1)\n        validate_token(key)\n"
+        "        vals = []\n        for v in q_split(val, ','):\n            if v.startswith('\"') and v.endswith('\"'):\n                v = v.strip('\"')\n"
+        "                validate_param_value(v, quoted=True)\n                vals.append(v)\n            else:\n"
+        "                validate_param_value(v, quoted=False)\n                if strict:\n                    vals.append(v.upper())\n"
+        "                else:\n                    vals.append(v)\n        if not vals:\n            result[key] = val\n"
+        "        elif len(vals) == 1:\n            result[key] = vals[0]\n        else:\n            result[key] = vals\n"
+        "    except ValueError as exc:\n        raise ValueError(f'{param!r} is not a valid parameter string: {exc}')\nreturn result"),
+    "Parameters.to_ical": (
+        "result = []\nitems = list(self.items())\nif sorted:\n    items.sort()\nfor key, value in items:\n    value = param_value(value)\n"
+        "    if isinstance(value, str):\n        value = value.encode(DEFAULT_ENCODING)\n    key = key.upper().encode(DEFAULT_ENCODING)\n"
+        "    result.append(key + b'=' + value)\nreturn b';'.join(result)"),
+    "param_value": (
+        "if isinstance(value, SEQUENCE_TYPES):\n    return q_join(value)\nelif isinstance(value, str):\n    return dquote(value)\nelse:\n"
+        "    return dquote(value.to_ical().decode(DEFAULT_ENCODING))"),
+    "validate_token": "match = NAME.findall(name)\nif len(match) == 1 and name == match[0]:\n    return\nraise ValueError(name)",
+    "validate_param_value": "validator = QUNSAFE_CHAR if quoted else UNSAFE_CHAR\nif validator.findall(value):\n    raise ValueError(value)",
+    "q_join": "return sep.join((dquote(itm) for itm in lst))",
+}
+
+
 def shape_checks():
-    """the glue code must still have the transcribed shape; otherwise the obligations that use it are undecided"""
+    """the glue code must still have EXACTLY the transcribed statements; otherwise the obligations that use it are undecided"""
     mod = source.module("parser")
-    frm = mod.lookup("Parameters.from_ical")
-    to = mod.lookup("Parameters.to_ical")
-    pv = mod.lookup("param_value")
+    for q, want in GLUE.items():
+        node = mod.lookup(q)
+        if node is None:
+            raise extract.Outside(f"{q} not found")
+        got = "\n".join(ast.unparse(x) for x in source.strip_docstring(node.body))
+        if got != want:
+            gl, wl = got.split("\n"), want.split("\n")
+            i = next((k for k in range(min(len(gl), len(wl))) if gl[k] != wl[k]), min(len(gl), len(wl)))
+            raise extract.Outside(f"{q} is no longer the transcribed glue: statement {i + 1} is `{(gl[i] if i < len(gl) else '<end>').strip()}`, "
+                                  f"transcribed `{(wl[i] if i < len(wl) else '<end>').strip()}`")
     qj = mod.lookup("q_join")
-    if None in (frm, to, pv, qj):
-        raise extract.Outside("Parameters.from_ical / to_ical / param_value / q_join not found")
-    s = ast.unparse(frm)
-    need = ["for param in q_split(st, ';')", "key, val = q_split(param, '=', maxsplit=1)", "validate_token(key)",
-            "for v in q_split(val, ',')", "if v.startswith('\"') and v.endswith('\"')", "v = v.strip('\"')",
-            "validate_param_value(v, quoted=True)", "validate_param_value(v, quoted=False)", "if not vals:", "result[key] = val",
-            "if len(vals) == 1:", "result[key] = vals[0]", "result[key] = vals"]
-    for n in need:
-        if n not in s:
-            raise extract.Outside(f"Parameters.from_ical no longer contains `{n}`")
-    s = ast.unparse(to)
-    for n in ["value = param_value(value)", "key = key.upper().encode(DEFAULT_ENCODING)", "result.append(key + b'=' + value)",
-              "return b';'.join(result)"]:
-        if n not in s:
-            raise extract.Outside(f"Parameters.to_ical no longer contains `{n}`")
-    s = ast.unparse(pv)
-    for n in ["if isinstance(value, SEQUENCE_TYPES):", "return q_join(value)", "elif isinstance(value, str):", "return dquote(value)"]:
-        if n not in s:
-            raise extract.Outside(f"param_value no longer contains `{n}`")
-    body = source.strip_docstring(qj.body)
-    if not (len(body) == 1 and ast.unparse(body[0]) == "return sep.join((dquote(itm) for itm in lst))"):
-        raise extract.Outside("q_join is not sep.join(dquote(itm) for itm in lst)")
     d = qj.args.defaults
     if not (d and ast.literal_eval(d[0]) == ","):
         raise extract.Outside("q_join default separator is not ','")
-    vt = mod.lookup("validate_token")
-    if "NAME.findall(name)" not in ast.unparse(vt) or "len(match) == 1 and name == match[0]" not in ast.unparse(vt):
-        raise extract.Outside("validate_token changed")
-    vp = mod.lookup("validate_param_value")
-    if "validator = QUNSAFE_CHAR if quoted else UNSAFE_CHAR" not in ast.unparse(vp) or "if validator.findall(value):" not in ast.unparse(vp):
-        raise extract.Outside("validate_param_value changed")
 
 
 def value_domain(alphabet, markers):
